@@ -80,9 +80,15 @@ class ChkStrTranscoder(
         for i in range(decoded_chk_section.number_of_strings):
             data += struct.pack("H", decoded_chk_section.strings_offsets[i])
         for string_ in decoded_chk_section.strings:
-            data += struct.pack(
-                "{}s".format(len(string_)), bytes(string_, _STRING_ENCODING)
-            )
+            encoded_string = bytes(string_, _STRING_ENCODING)
+            if len(encoded_string) != len(string_) or b"\0" in encoded_string:
+                # strings are framed, and their offsets computed, by character count,
+                # and end at the first NUL: anything but NUL-free 7-bit text would be
+                # cut short (inside a multi-byte sequence, or at the NUL)
+                raise ValueError(
+                    f"Cannot store a string that is not NUL-free 7-bit text: {string_!r}"
+                )
+            data += struct.pack("{}s".format(len(string_)), encoded_string)
             data += struct.pack(
                 "1s", bytes(_NULL_TERMINATE_CHAR_FOR_STRING, _STRING_ENCODING)
             )
